@@ -55,7 +55,11 @@ def main():
         }],
         "checks": checks,
         "not_applicable": na,
-        "notes": "See DESIGN.md. Known findings: KNOWN_FINDINGS.jsonl. Exit 2 = machinery failure, never a verdict.",
+        "notes": "See DESIGN.md. Known findings: KNOWN_FINDINGS.jsonl. Exit 2 = machinery failure, never a verdict. "
+                 "Extensions of the specification beyond the listed properties (DESIGN.md section 15) run the same way: "
+                 "cd /verif && /venv/bin/python -m engine.check X01 .. X09 --tier quick|thorough (evidence/X0n.json). "
+                 "Binding demos: /venv/bin/python -m engine.selftest. Input pools chosen by execution coverage: "
+                 "engine/covpool.py -> pools/.",
     }
     with open(os.path.join(VERIF, "MANIFEST.json"), "w") as f:
         json.dump(m, f, indent=1)
